@@ -6,6 +6,8 @@ import shapes as S
 import jets as J
 
 PID = 'C02'
+FLOAT_KINDS = {'cders', 'cders-alt', 'sders', 'sders-alt', 'bders23'}      # float-mode companion (core.float_companion)
+FLOAT_TOL = 1e-6
 STATS = G.STATS
 PARTIAL = [
     "proved: curves, every order (curve_derivatives_are_true_derivatives); surfaces, every mixed order as partial derivatives of the bivariate span polynomial in Mathlib's F[X][Y] (surface_derivatives_are_true_mixed_derivatives; with SurfaceEvaluator2 only k+l <= order is computed, the rest is left zero); the list models of A4.2 and A4.4 solve the (bivariate) Leibniz system, whose solution is unique; A2.3 transcribed statement by statement (basisFunsDersA23, stream bders23) equals the specification table basisDers = derivatives of the basis polynomials, and does not divide by zero under the span guard; A3.2 as a sum over that table is the true derivative",
